@@ -171,7 +171,7 @@ def check(ctx):
             d = [x for x in p.conds if x[0] == ("discr", c)]
             if not d:
                 return False
-            if d[0][1] == 0:
+            if d[0][1] == 0 or d[0][1] == ("not", (1,)):       # the None arm (a let-else tests `== Some`, the rest is None)
                 seen_none = True
                 if not (p.end == "return" and is_err_return(p) and want in err_adts(p.ret)):
                     return False
